@@ -541,3 +541,25 @@ def tables_complete():
     if got != {'"a"', '"b"'}:
         return f"(a.id == b.id).tables_ == {got!r}: both tables occur in the expression"
     return None
+
+
+def replace_slot(cls_short, slot):
+    """C16: build(T_old).replace_table(T_old, T_new) must not mention T_old any more"""
+    from . import Q, Table
+    t, u, a = Table("t"), Table("u"), Table("abc", schema="sch", alias="a1")
+    new = Table("zz_new")
+    for label, obj in _objs_of(cls_short, "replace_table"):
+        if not hasattr(obj, "replace_table"):
+            continue
+        for old in (t, u):
+            try:
+                r = obj.replace_table(old, new)
+                ctx = pk.Query.SQL_CONTEXT.copy(with_namespace=True)
+                sql = r.get_sql(ctx) if not isinstance(obj, Q.QueryBuilder) else str(r)
+                before = obj.get_sql(ctx) if not isinstance(obj, Q.QueryBuilder) else str(obj)
+            except Exception as e:
+                return f"{label}.replace_table({old}, {new}) raises {type(e).__name__}: {e}"
+            qn = f'"{old._table_name}"'
+            if qn in before and qn in sql:
+                return f"{label}.replace_table({old._table_name}, zz_new) still mentions {qn}: {sql!r}"
+    return None
